@@ -11,7 +11,7 @@ CONSTANT RenameSites     \* sites at which the reference merge rewrites referenc
 
 VARIABLE sc
 AllButInstanceTypeRef == SiteIds \ {"INSTANCE.type_ref"}
-Modes == {"plain", "conflict", "twin", "homonym", "premerge", "owner_conflict", "owner_union"}
+Modes == {"plain", "conflict", "twin", "homonym", "premerge", "premerge_b", "premerge_ab", "owner_conflict", "owner_union"}
 Renamable(ns) == ns \notin ({"FUNCTION", "GROUP", "USER_RIGHTS", "MOD_COMMON", "VARIANT_CODING"} \cup LocalNs)
 SeqRange(s) == {s[i] : i \in 1..Len(s)}
 
@@ -24,13 +24,13 @@ Valid(x) ==
     LET n == SiteTarget[x.site]  ok == NsOfKind[SiteOwner[x.site]] IN
     /\ IF n \in LocalNs THEN x.tk = "-" /\ x.ak = "-" /\ x.mode \in {"plain", "homonym"}
        ELSE /\ x.tk \in SeqRange(KindsOfNs[n])
-            /\ IF x.mode \in {"conflict", "premerge", "owner_conflict"} THEN x.ak \in SeqRange(KindsOfNs[n]) /\ Renamable(n)
+            /\ IF x.mode \in {"conflict", "premerge", "premerge_b", "premerge_ab", "owner_conflict"} THEN x.ak \in SeqRange(KindsOfNs[n]) /\ Renamable(n)
                ELSE x.ak = "-"
     /\ (x.pos > 1 => SiteIsList[x.site])
     /\ (x.mode = "owner_conflict" => Renamable(ok) /\ x.pos = 1)
     /\ (x.mode = "owner_union" => SiteOwner[x.site] \in UnionKinds /\ x.pos = 1)
     /\ (x.mode = "twin" => n \notin LocalNs)
-    /\ (x.mode = "premerge" => x.pos = 1 /\ x.ak = x.tk)
+    /\ (x.mode \in {"premerge", "premerge_b", "premerge_ab"} => x.pos = 1 /\ x.ak = x.tk)
     /\ (x.mode = "homonym" => x.pos = 1)
 
 El(k, n, c, refs) == [kind |-> k, name |-> n, c |-> c, refs |-> refs, criteria |-> <<>>]
@@ -51,12 +51,17 @@ CaseOf(x) ==
                    ELSE <<El(x.tk, "t1", 20, <<>>)>> \o
                         (IF SiteIsList[s] THEN <<El(x.tk, "x1", 21, <<>>), El(x.tk, "y1", 22, <<>>)>> ELSE <<>>)
         hk == HomonymKind(n)
-        bextra == IF x.mode = "homonym" THEN <<El(hk, "t1", 32, <<>>)>> ELSE <<>>
+        \* B may itself contain names of the form X.MERGE (e.g. it is the product of an earlier merge)
+        bextra == IF x.mode = "homonym" THEN <<El(hk, "t1", 32, <<>>)>>
+                  ELSE IF x.mode = "premerge_b" THEN <<El(x.tk, "t1.MERGE", 37, <<>>)>>
+                  ELSE IF x.mode = "premerge_ab" THEN <<El(x.tk, "t1.MERGE2", 38, <<>>)>> ELSE <<>>
         a == CASE x.mode = "plain" -> <<>>
                [] x.mode = "conflict" -> <<El(x.ak, "t1", 30, <<>>)>>
                [] x.mode = "twin" -> <<El(x.tk, "t1", 20, <<>>)>>
                [] x.mode = "homonym" -> <<El(hk, "t1", 31, <<>>)>>
                [] x.mode = "premerge" -> <<El(x.ak, "t1", 30, <<>>), El(x.ak, "t1.MERGE", 33, <<>>)>>
+               [] x.mode = "premerge_b" -> <<El(x.ak, "t1", 30, <<>>)>>
+               [] x.mode = "premerge_ab" -> <<El(x.ak, "t1", 30, <<>>), El(x.ak, "t1.MERGE", 33, <<>>)>>
                [] x.mode = "owner_conflict" -> <<El(x.ak, "t1", 30, <<>>), El(okind, "o1", 35, <<>>)>>
                [] x.mode = "owner_union" -> <<El(x.tk, "z1", 34, <<>>), El(okind, "o1", 36, <<<<s, <<"z1">>>>>>)>>
     IN [id |-> x, A |-> a, B |-> <<owner>> \o targets \o bextra]
